@@ -104,6 +104,11 @@ def apply_op(w, ref, op, last, rec, check_crash, bad, trace):
             bad.append(('save-raises', "save raises %r" % (e,), trace))
             return w, ref, last
         new_saved = (tuple(ref.unused), tuple(sorted(ref.ann.items())))
+        # what is on disk after a save must be the wallet that was saved
+        ft = file_text()
+        if ft is None or parse_saved(ft) != wstate(w):
+            bad.append(('saved-file-differs', "after save the wallet file does not hold the wallet that was saved (%s)" % (
+                'no file' if ft is None else 'stale or different content'), trace))
         if check_crash:
             crash_check(rec, ref.saved_impl, wstate(w), bad, trace)
         ref.saved = new_saved
